@@ -11,13 +11,16 @@ span, so EVERY tier it returns is well-formed, whatever it is given (`pconstruct
 TimelessTextgridTierException of an empty tier without any bound.  All operations but three return through the
 constructor.  The three in-place ones are covered directly: `deleteEntry` leaves a sub-list of a sorted list,
 `insertEntry` re-sorts and grows the span to the first and last entry (after the repair A3), `eraseRegion` without
-shrinking only deletes.  No separation hypothesis is needed for *well-formedness*: whichever entry the tolerant
-`Point.__eq__` makes `deleteEntry` remove, what remains is a sub-list.  Hence `POpOk` is `True` for every operation and
+shrinking only deletes.  No separation hypothesis is needed: `deleteEntry` of a member removes exactly that member
+(`deletePt_of_mem`), and whichever entry the tolerant `Point.__eq__` makes it remove for an absent argument, what
+remains is a sub-list.  Hence `POpOk` is `True` for every operation and
 `preachable_wf` holds for every operation sequence of any length, with arbitrary arguments (second operands included).
 
 The error clause (`pstep_err`): a step that returns no tier raises ArgumentError, CollisionError or OutOfBounds — except
-the built-in ValueError of `deleteEntry` on an absent entry (known finding A13c) and, without separation (`PNoClose`),
-of `eraseRegion` over a chain of `==`-close equal-labelled points (`perase_valueerror_counterexample`).
+the built-in ValueError of `deleteEntry` on an absent entry (known finding A13c).  No separation hypothesis here
+either: `eraseRegion` over a chain of `==`-close equal-labelled points, which raised ValueError before the repair of
+`deleteEntry`, succeeds (`perase_chain_regression`; `PNoClose` is only used there, to state that the regression tier
+is NOT separated).
 -/
 namespace C05
 
@@ -425,7 +428,8 @@ theorem preachable_validate (t : PTier Int) (hwf : t.WF) (ops : List POp) : (pru
 (known finding A13c).  `eraseRegion` over equal-labelled points chained within the tolerance of `Point.__eq__` used to be
 a second one (`perase_chain_regression`); `deleteEntry` now finds the exact entry first. -/
 
-/-- no two distinct entries are equal under `Point.__eq__` -/
+/-- no two distinct entries are equal under `Point.__eq__` (no theorem assumes this; `perase_chain_regression` states
+its negation for the regression tier) -/
 def PNoClose (ps : List (Pt Int)) : Prop := ∀ a ∈ ps, ∀ b ∈ ps, ptEq a b = true → a = b
 
 theorem ptEq_self (a : Pt Int) : ptEq a a = true := by
@@ -656,12 +660,6 @@ def exU : PTier Int := ⟨"U", [⟨25, "u"⟩, ⟨70, "v"⟩, ⟨130, "w"⟩], 0
 theorem exP_wf : exP.WF := by
   refine ⟨?_, ?_, ?_, ?_, ?_⟩ <;> simp [exP, Pt.le] <;> decide
 
-theorem exP_noclose : PNoClose exP.ps := by
-  intro a ha b hb hab
-  simp only [exP, List.mem_cons, List.not_mem_nil, or_false] at ha hb
-  rcases ha with rfl | rfl | rfl | rfl <;> rcases hb with rfl | rfl | rfl | rfl <;>
-    first | rfl | (simp [ptEq, Tm.close9a] at hab)
-
 /-- a merge onto an occupied time with an unstripped label; space; a point outside the span; union with a longer tier;
 deletion; erasing with shrinking; a shift that drops a point; crop with rebasing; append; dejitter -/
 def exOps : List POp :=
@@ -674,8 +672,8 @@ theorem exOps_ok : ∀ op ∈ exOps, ∀ t, POpOk t op := fun op _ t => popOk_tr
 theorem exHistory_wf : (prun exP exOps).WF ∧ (prun exP exOps).validate = true :=
   ⟨preachable_wf exP exP_wf exOps, preachable_validate exP exP_wf exOps⟩
 
-/-- the hypotheses of the error clause are met too: the erase step of the history acts on a separated tier -/
-example : PErrOk exP (.erase 30 60 true) := trivial
+/-- the error clause has no side condition (`PErrOk` is `True` for every operation on every tier) -/
+example : PErrOk cexChain (.erase 1 19999999999 true) := trivial
 
 /-- every step of the history succeeds (a strict run) -/
 def prunStrict (t : PTier Int) : List POp → Except Err (PTier Int)
